@@ -219,10 +219,19 @@ def run_lossmin(case, qt, empi, detailed=True):
     return res, loss
 
 
-def proj_cap_hit(ctx):
-    """True when the library printed its 'projection iterations exceeds the limit' warning during this case."""
+def proj_cap_hit(ctx, configured=None):
+    """True when the library printed its 'projection iterations exceeds the limit N' warning during this case; when the
+    configured limit is given, every printed N must be that limit (otherwise the option did not reach the projection)."""
+    import re
+
     cap = getattr(ctx, "captured_stdout", None)
-    return cap is not None and "projection iterations exceeds the limit" in cap.getvalue()
+    if cap is None:
+        return False
+    limits = [int(v) for v in re.findall(r"projection iterations exceeds the limit (\d+)", cap.getvalue())]
+    if configured is not None and limits:
+        ctx.check(all(v == configured for v in limits), "projection_limit_is_the_configured_one",
+                  f"warning names limits {sorted(set(limits))}, option max_iteration_proj_physical={configured}")
+    return bool(limits)
 
 
 def check_lossmin(case, ctx):
@@ -242,7 +251,7 @@ def check_lossmin(case, ctx):
     q = res.estimated_qoperation
     z = tomo.estimate_stacked(q)
     ctx.check(np.all(np.isfinite(z)), "estimate_finite")
-    if proj_cap_hit(ctx):
+    if proj_cap_hit(ctx, case.get("max_iter_proj", 3000)):
         ctx.skip("projection-iteration-cap")
         return
     scale = float(np.linalg.norm(z))
@@ -273,6 +282,53 @@ def check_lossmin(case, ctx):
     if capped:
         ctx.skip("max-iteration")
     ctx.nontrivial(case["datadesc"]["data"] != "exact" or _is_boundary(case, info))
+
+
+# ----------------------------------------------------------------------------- option -> projection wiring
+@st.composite
+def wiring_case(draw, tier):
+    kinds = ("qst", "povmt", "qpt") if tier == "quick" else ("qst", "povmt", "qpt", "qmpt")
+    c = draw(tomo.tomo_case(kinds, ("1q",), (2, 3)))
+    t = tomo.true_type(c["tomo"])
+    c["algo"] = draw(st.sampled_from(ALGOS))
+    c["constraints"] = draw(st.sampled_from([[True, True], [True, True], [True, False], [False, True], [False, False]]))
+    c["order"] = draw(st.sampled_from(["eq_ineq", "ineq_eq"]))
+    c["k_proj"] = draw(st.sampled_from([1, 2, 3, 7, 40]))       # max_iteration_proj_physical
+    c["m_opt"] = draw(st.sampled_from([1, 5, 11, 1000]))         # max_iteration_optimization (must not leak into the projection)
+    d = 2
+    n = {"state": 4, "povm": 4 * c["true"].get("m", 2), "gate": 16, "mprocess": 16 * c["true"].get("m", 2)}[t]
+    c["point"] = draw(gen.raw(n))
+    c["point_scale"] = draw(st.sampled_from([0.3, 1.0, 3.0]))
+    return c
+
+
+def check_wiring(case, ctx):
+    """the projection an algorithm object derives from (tomography, option) is the projection the option describes:
+    differential against the direct call on the estimation template with the option's own iteration limit."""
+    qt, c_sys, info = tomo.build_tomo(case)
+    flag = case["flag"]
+    algo, opt = make_algo(case["algo"], on_algo_eq_constraint=case["constraints"][0],
+                          on_algo_ineq_constraint=case["constraints"][1], mode_proj_order=case["order"],
+                          max_iteration_optimization=case["m_opt"], max_iteration_proj_physical=case["k_proj"])
+    algo.set_from_option(opt)
+    algo.set_constraint_from_standard_qt_and_option(qt, opt)
+    tmpl = qt.generate_empty_estimation_obj_with_setting_info()
+    x = np.asarray(case["point"], dtype=float) * case["point_scale"]
+    var = np.asarray(tmpl.convert_stacked_vector_to_var(c_sys, x, on_para_eq_constraint=flag), dtype=float)
+    got = np.asarray(algo.func_proj(var.copy()), dtype=float)
+    eq_on, ineq_on = case["constraints"]
+    ctx.label(case["tomo"], case["algo"], f"flag:{flag}", f"constraints:{case['constraints']}", f"k_proj:{case['k_proj']}", f"m_opt:{case['m_opt']}")
+    if eq_on and ineq_on:
+        want = tmpl.calc_proj_physical_with_var(var.copy(), on_para_eq_constraint=flag, max_iteration=case["k_proj"])
+    elif eq_on:
+        want = tmpl.calc_proj_eq_constraint_with_var(c_sys, var.copy(), on_para_eq_constraint=flag)
+    elif ineq_on:
+        want = tmpl.calc_proj_ineq_constraint_with_var(c_sys, var.copy(), on_para_eq_constraint=flag)
+    else:
+        want = var
+    ctx.close(got, np.asarray(want, dtype=float), 0.0, "algorithm_projection_is_the_configured_projection",
+              f"constraints={case['constraints']} max_iteration_proj_physical={case['k_proj']} max_iteration_optimization={case['m_opt']}")
+    ctx.nontrivial(case["k_proj"] != case["m_opt"] and (eq_on and ineq_on))
 
 
 def kf_relative_entropy_loss(case):
@@ -316,6 +372,13 @@ def check_recovery(case, ctx):
 
 
 FACETS = {
+    "projection_wiring": {
+        "strategy": wiring_case,
+        "check": check_wiring,
+        "budget": {"quick": {"examples": 400, "shards": 4}, "thorough": {"examples": 8000, "shards": 16}},
+        "nontrivial": "both constraint options on and max_iteration_proj_physical != max_iteration_optimization",
+        "min_nontrivial": 40,
+    },
     "projected_linear": {
         "strategy": est_case,
         "check": check_projected_linear,
